@@ -3,6 +3,7 @@ package main
 import (
 	"bytes"
 	"fmt"
+	"hash/crc32"
 	"strings"
 
 	ber "github.com/go-asn1-ber/asn1-ber"
@@ -86,12 +87,46 @@ func renderMessage(m gldap.Message) string {
 	return fmt.Sprintf("unknown(%T)", m)
 }
 
-// decodeFrame runs the connection's own read path over the frame.
+// decodeFrame runs the connection's own read path over the frame and then - every second frame - hands the
+// request to a router the way serveRequests does (routes with criteria that do not match, routes that do, a
+// default route) and renders the message the HANDLER receives; for the others the message is rendered as decoded.
 func decodeFrame(frame []byte) string {
-	vc := gldap.NewVerifConn(1, frame, nil)
+	viaMux := crc32.ChecksumIEEE(frame)&1 == 1
+	var seen gldap.Message
+	var mux *gldap.Mux
+	if viaMux {
+		h := func(w *gldap.ResponseWriter, r *gldap.Request) { seen = r.VerifMessage() }
+		mux, _ = gldap.NewMux()
+		_ = mux.Search(func(w *gldap.ResponseWriter, r *gldap.Request) {}, gldap.WithBaseDN("ou=Nowhere, dc=Example,dc=org"), gldap.WithFilter("(cn=Nobody At All)"))
+		_ = mux.Search(h, gldap.WithScope(gldap.BaseObject))
+		_ = mux.ExtendedOperation(func(w *gldap.ResponseWriter, r *gldap.Request) {}, gldap.ExtendedOperationName("9.9.9.9.9"))
+		_ = mux.Bind(h)
+		_ = mux.Search(h)
+		_ = mux.Modify(h)
+		_ = mux.Add(h)
+		_ = mux.Delete(h)
+		_ = mux.Unbind(h)
+		_ = mux.DefaultRoute(h)
+	}
+	vc := gldap.NewVerifConn(1, frame, mux)
 	r, err := vc.ReadRequest(1)
 	if err != nil {
 		return "err"
+	}
+	if viaMux {
+		if r.VerifRouteOp() == "unbind" {
+			// serveRequests calls the unbind route itself
+			return "ok " + renderMessage(r.VerifMessage())
+		}
+		w, err := vc.Writer(1)
+		if err != nil {
+			return "err"
+		}
+		vc.Serve(w, r)
+		if seen == nil {
+			return "no-handler " + renderMessage(r.VerifMessage())
+		}
+		return "ok " + renderMessage(seen)
 	}
 	return "ok " + renderMessage(r.VerifMessage())
 }
